@@ -890,7 +890,11 @@ def run_scenarios(ctx, scs, src, label):
             if fk not in fresh_cache:
                 fresh_cache[fk] = ex.submit(run_runner, ctx, fspec, "%s-f%d" % (label, idx))
             jobs[("f", idx)] = fresh_cache[fk]
-        results = {k: j.result() for k, j in jobs.items()}
+        results = {}
+        for n_done, (k, j) in enumerate(jobs.items()):
+            results[k] = j.result()
+            if (n_done + 1) % 20 == 0:
+                ctx.log("%s: %d/%d subprocess runs collected" % (label, n_done + 1, len(jobs)))
     lines, views = [], []
     for idx, sc in enumerate(scs):
         h, f = results[("h", idx)], results[("f", idx)]
@@ -974,7 +978,7 @@ def run(ctx):
         run_scenarios(ctx, corpus, src, "corpus")
     rng = ctx.rng("histories")
     heavy = heavy_histories(src, ctx.tier)
-    scs = gen_real(rng, src, ctx.scale(3, 24), heavy) + gen_copy(rng, src, ctx.scale(2, 12)) + gen_synth(rng, ctx.scale(5, 40))
+    scs = gen_real(rng, src, ctx.scale(3, 22), heavy) + gen_copy(rng, src, ctx.scale(2, 10)) + gen_synth(rng, ctx.scale(5, 38))
     for sc in scs[:2] + scs[-2:]:
         ctx.sample({"kind": sc.kind, "ops": sc.ops, "note": sc.note})
     run_scenarios(ctx, scs, src, "gen")
